@@ -69,6 +69,10 @@ RULES = {
                  '(Hessian), linearly in the step of that coordinate with component modulus <= 2 steps',
     'R-EVALSITES': 'in an abstract end-to-end run the user function is only reached from the difference quotients, '
                    'and at x itself from _eval_first / Jacobian._derivative_nonzero_order / _derivative_zero_order',
+    'R-UNTOUCHED': 'in every evaluation of a multivariate f the coordinates that are not being perturbed are the original x[k] '
+                   'themselves (selection provenance in the data-abstract domain: copied, never recomputed): a work array that is '
+                   'incremented and restored, (x + h) - h, is not x in floating point and leaves earlier coordinates off by an ulp - '
+                   'so at most one coordinate (two for the Hessian) differs from x in any call',
     'R-STEPSIGN': 'every step produced by the default and the Min/Max generators for positive base step and ratio is '
                   'positive, and a zero step is never yielded',
 }
@@ -85,7 +89,7 @@ def run(ctx):
     rep.assume('the step generator yields positive real steps when base step and ratio are positive (checked for '
                'the three library generators under R-STEPSIGN; a user supplied negative base_step is outside the claim)')
     for rid, text in RULES.items():
-        rep.rule(rid, text, {'R-ADMISSIBLE': 25, 'R-SUPPORT': 25, 'R-EVALSITES': 10, 'R-STEPSIGN': 4}[rid])
+        rep.rule(rid, text, {'R-ADMISSIBLE': 25, 'R-SUPPORT': 25, 'R-EVALSITES': 10, 'R-STEPSIGN': 4, 'R-UNTOUCHED': 8}[rid])
     fd = facts.repo.module('finite_difference')
     seen = {}
     for rule_cls, (core, dcls, methods, fixed) in RULE_CLASSES.items():
@@ -160,6 +164,7 @@ def run(ctx):
                            first_bad_call_site=viol[0][1] if viol else None),
                       exp, label, key='admissible %s %s' % (core, method))
     evalsites(ctx)
+    untouched(ctx)
     after_setter(ctx)
     stepsign(ctx)
     rep.notes['exhaustive'] = True
@@ -220,6 +225,43 @@ def evalsites(ctx):
                       {'calls': len(sites), 'sites': sorted({s for s, _ in sites}), 'offending': bad[:4]},
                       'f is called only inside difference quotients, or at x itself from ' + ', '.join(ALLOWED_AT_X),
                       label, key='evalsite %s' % (bad[0][0] if bad else ''))
+
+
+def untouched(ctx):
+    from ..dvrun import explore, tensor_f, StepGenModel
+    from ..dv import tags_of
+    rep = ctx.rep
+    core_mod = ctx.repo.module('core')
+    for cls, fshape, maxc in (('Jacobian', (2,), 1), ('Gradient', (), 1), ('Hessdiag', (), 1), ('Hessian', (), 2)):
+        methods = ('central', 'forward', 'backward', 'complex') + (('central2',) if cls in ('Hessian', 'Hessdiag') else ())
+        for method in methods:
+            seen = []
+
+            def body(s, cls=cls, fshape=fshape, method=method, seen=seen):
+                I = s.interp
+                C = I.get_global('core', cls)
+                inner = tensor_f(s, 3, fshape)
+
+                def f(x, *a, **k):
+                    r = inner(x, *a, **k)
+                    for v in (r.items() if hasattr(r, 'items') else [r]):
+                        for t in tags_of(v):
+                            if t[0] == 'f':
+                                seen.append(tuple(t[2]))
+                    return r
+                d = C(f, method=method, step=StepGenModel(num_steps=7))
+                return d(s.x_array((3,)))
+            try:
+                ex = explore(ctx.repo, body, pinned={'(np.abs(step) > 0).all()': True})
+            except AnalysisError as exc:
+                rep.undecided('R-UNTOUCHED', 'core.%s.__call__' % cls, exc, '%s/%s' % (cls, method))
+                continue
+            raised = [exc.exc_name for d_, r_, exc in ex.paths if exc is not None]
+            worst = sorted({p for p in seen if len(p) > maxc})
+            rep.check(bool(seen) and not worst and not raised, 'R-UNTOUCHED', 'core.%s.__call__' % cls, core_mod.relpath,
+                      {'evaluations': len(seen), 'coordinates_differing_from_x_in_one_call': [list(p) for p in worst[:3]], 'raised': raised[:2]},
+                      'at most %d coordinate(s) of the argument differ from x' % maxc, '%s/%s/len(x)=3' % (cls, method),
+                      key='untouched %s' % cls)
 
 
 def after_setter(ctx):
